@@ -46,6 +46,11 @@ func (c *Ctx) emitOp03(r opRun, m modeling.Mesh) {
 	in, out := meshStr(m), meshStr(r.out[0])
 	f := strings.Fields(r.args)
 	switch r.name {
+	case "translate", "scale", "meshscale", "rotate", "applytrs", "center", "normalize", "smoothnormals", "flatnormals", "setattr":
+		// the "stated map" clause: attribute k of the output is exactly the stated function of the old array
+		c.Emit("c03.holds.changed_spec", r.name+" "+r.args+" "+out, "true")
+	}
+	switch r.name {
 	case "unweld", "removeunref", "flip", "topointcloud":
 		c.Emit("c03.holds."+r.name+"_spec", in+" "+out, "true")
 	case "append":
